@@ -5,8 +5,8 @@ from vlib import Case
 
 ID = "C19"
 COQ_DIRS = ["Common", "C19"]
-COQ_TARGETS = ["C19/Props.vo", "C19/Run.vo", "C19/ShellRun.vo"]
-PROPS_MODULES = ["C19.Props"]
+COQ_TARGETS = ["C19/Props.vo", "C19/ShellProps.vo", "C19/Run.vo", "C19/ShellRun.vo"]
+PROPS_MODULES = ["C19.Props", "C19.ShellProps"]
 RUN_MODULE = "C19.Run"
 RUN_FN = "run_case"
 HARNESS_BIN = "c19"
